@@ -178,6 +178,36 @@ class _NormalForm(ast.NodeTransformer):
     def __init__(self):
         self.count = 0
 
+    def visit_Call(self, n):
+        # f(*(X + (y, z)))  ->  f(*X, y, z)      f(*((y,) + X))  ->  f(y, *X)
+        # the same argument list, built by the call instead of by a tuple concatenation (X is evaluated before y either way)
+        self.generic_visit(n)
+        if any(isinstance(a, ast.Starred) and isinstance(a.value, ast.BinOp) and isinstance(a.value.op, ast.Add) for a in n.args):
+            def flat(v):
+                if isinstance(v, ast.BinOp) and isinstance(v.op, ast.Add) and (isinstance(v.left, ast.Tuple) or isinstance(v.right, ast.Tuple)):
+                    return flat(v.left) + flat(v.right)
+                if isinstance(v, ast.Tuple) and not any(isinstance(x, ast.Starred) for x in v.elts):
+                    return list(v.elts)
+                return [ast.Starred(value=v, ctx=ast.Load())]
+            new = []
+            changed = False
+            for a in n.args:
+                if isinstance(a, ast.Starred) and isinstance(a.value, ast.BinOp) and isinstance(a.value.op, ast.Add):
+                    parts = flat(a.value)
+                    if len(parts) > 1:
+                        changed = True
+                        new.extend(parts)
+                        continue
+                new.append(a)
+            if changed:
+                self.count += 1
+                n.args = new
+                for x in ast.walk(n):
+                    if not hasattr(x, 'lineno') and isinstance(x, (ast.expr, ast.stmt)):
+                        ast.copy_location(x, n)
+                ast.fix_missing_locations(n)
+        return n
+
     def visit_Compare(self, n):
         self.generic_visit(n)
         if len(n.ops) == 1 and type(n.ops[0]) in _FLIP and _is_const(n.left) and not _is_const(n.comparators[0]):
@@ -214,6 +244,33 @@ class _NormalForm(ast.NodeTransformer):
             n.test = ast.copy_location(ast.BoolOp(op=ast.And(), values=vals), n.test)
             n.body = inner.body
             self.count += 1
+        # `if (x := E) is not None:`  ->  `x = E` / `if x is not None:`   when the assignment expression is what the test
+        # evaluates first (left operand of the comparison / first operand of and-or / operand of not)
+        holder, attr = None, None
+        cur, parent, pattr = n.test, n, 'test'
+        while True:
+            if isinstance(cur, ast.NamedExpr):
+                holder, attr = parent, pattr
+                break
+            if isinstance(cur, ast.Compare):
+                cur, parent, pattr = cur.left, cur, 'left'
+            elif isinstance(cur, ast.BoolOp):
+                cur, parent, pattr = cur.values[0], cur, ('values', 0)
+            elif isinstance(cur, ast.UnaryOp) and isinstance(cur.op, ast.Not):
+                cur, parent, pattr = cur.operand, cur, 'operand'
+            else:
+                break
+        if holder is not None and isinstance(cur.target, ast.Name):
+            name = ast.copy_location(ast.Name(id=cur.target.id, ctx=ast.Load()), cur)
+            if isinstance(attr, tuple):
+                getattr(holder, attr[0])[attr[1]] = name
+            else:
+                setattr(holder, attr, name)
+            asg = ast.copy_location(ast.Assign(targets=[ast.Name(id=cur.target.id, ctx=ast.Store())], value=cur.value), n)
+            ast.fix_missing_locations(asg)
+            asg.end_lineno = getattr(n, 'lineno', None)
+            self.count += 1
+            return [asg, n]
         return n
 
     def visit_Expr(self, n):
@@ -307,6 +364,7 @@ def normalise(tree, relpath):
     if known_functions:
         if getattr(tree, '_src', None) is None or not _is_reference_text(tree, relpath):
             done.extend('%s: %s' % (relpath, x) for x in inline.unroll_table_loops(tree, known_functions))
+            done.extend('%s: %s' % (relpath, x) for x in inline.expand_constant_kwargs(tree))
         done.extend('%s: %s' % (relpath, x) for x in inline.inline_helpers(tree, known_functions))
     proven = as_reference(tree, relpath, done)
     for key, fn in functions(tree):
